@@ -33,3 +33,23 @@ package core
 //@   lock Mutex level 40
 //@   guarded_by Mutex: closed active
 //@   immutable: l s addr
+//@
+//@ func (*socket).Send
+//@   before call:SendMsg#1 assert len(msg.Header) == 0 && eqseq(msg.Body, b) && arrof(msg.Body) != arrof(b)
+//@
+//@ func (*socket).Recv
+//@   ghost rb = result0.Body at call:RecvMsg#1
+//@   ensures isnil(result1) ==> eqseq(result0, rb) && fresh_arr(result0)
+//@
+//@ func (context).Send
+//@   before call:SendMsg#1 assert len(msg.Header) == 0 && eqseq(msg.Body, b) && arrof(msg.Body) != arrof(b)
+//@
+//@ func (context).Recv
+//@   ghost rb = result0.Body at call:RecvMsg#1
+//@   ensures isnil(result1) ==> eqseq(result0, rb) && fresh_arr(result0)
+//@
+//@ func (*pipe).RecvMsg
+//@   ensures result != nil ==> len(result.Header) == 0
+//@
+//@ func (*pipe).SendMsg
+//@   before call:Send#1 assert msg.Body == old(msg.Body) && msg.Header == old(msg.Header)
